@@ -8,6 +8,7 @@ import (
 	"encoding/json"
 	"flag"
 	"fmt"
+	"go/types"
 	"os"
 	"sort"
 	"strings"
@@ -46,11 +47,40 @@ func main() {
 				}
 			}
 		}
+		tnames := map[string]bool{}
+		for _, cn := range []string{"default", "nocgo", "purego"} {
+			lc, _ := configByName(cn, *repo)
+			w, err := load(lc)
+			if err != nil {
+				continue
+			}
+			for _, pp := range []string{rootPath, hashPath, randomPath} {
+				if pk := w.ByPath[pp]; pk != nil {
+					for _, n := range pk.Types.Scope().Names() {
+						if tn, ok := pk.Types.Scope().Lookup(n).(*types.TypeName); ok {
+							tnames[pp+"."+tn.Name()] = true
+						}
+					}
+				}
+			}
+		}
 		var ns []string
 		for n := range names {
 			ns = append(ns, n)
 		}
 		sort.Strings(ns)
+		var ts []string
+		for n := range tnames {
+			ts = append(ts, n)
+		}
+		sort.Strings(ts)
+		defer func() {
+			fmt.Println("\n// typeVocab: the named types of the module on the confirmed tree; values carried in other (new) struct\n// types are looked through (vinline.go, loadSource).\nvar typeVocab = map[string]bool{")
+			for _, n := range ts {
+				fmt.Printf("\t%q: true,\n", n)
+			}
+			fmt.Println("}")
+		}()
 		fmt.Println("package main\n\n// vocab: the module functions of the tree the rules were confirmed on (generated: cryptolint -dumpvocab).\n// Functions not listed here are treated as refactoring helpers and virtually inlined (vinline.go).\nvar vocab = map[string]bool{")
 		for _, n := range ns {
 			fmt.Printf("\t%q: true,\n", n)
